@@ -75,6 +75,26 @@ CLAIMED = {
         note="Coq kernel + vm_compute; closed under the global context; numeric layers are parameters (term errors, non-General selections); hand model tied by correspondence.",
         technique="Rocq proof about a control-flow model + exhaustive correspondence over configuration cells",
         ref="DESIGN.md §3 C19"),
+    "C02": dict(
+        text="NumPy-lite model of array values with their shapes (0-d/1-d/2-d, atleast_2d, transpose, squeeze, broadcasting) and a vectorised model of Engine.process following the code's shapes; theorem batch_eq_rows: for every engine with General activation (integral defuzzifiers at resolution >= 2 or a one-row batch, no Linear term under an integral defuzzifier) and every batch, the vectorised model equals the scalar model folded over the rows with values and previous values carried from row to row, errors included; component theorems for Activated/Aggregated membership, defuzzifiers, weighted defuzzifiers, the cascade (split invariance with singleton cuts) and the input_values setter/getter; kernel-checked refutation at resolution 1 (known finding). Correspondence: implementation batch vs implementation row-by-row floats (exact), Coq rows model vs float mode, Coq batch model vs batch mode incl. shapes, all shipped examples.",
+        note="Coq kernel + vm_compute; closed under the global context (binary64 laws via the standard library's FloatAxioms); hand models tied by correspondence; Function terms not modelled on batches; one numeric reading of numpy.float64**2 on both sides (the two readings are compared by the direct oracle); known finding batch:resolution-1 reported as KNOWN-FINDING.",
+        technique="Rocq proof (vectorised model = scalar model folded over rows) + exact three-way correspondence",
+        ref="DESIGN.md §3 C02, §9"),
+    "C12": dict(
+        text="Model of OutputVariable.defuzzify / clear / the clipping value setter on batches; theorems for every sequence and every split: row-wise cascade specification (defuzzified value; most recent value under lock-previous; default; clip), split invariance over all cuts into successive calls, previous value = last value before the call, disabled variable untouched, failures atomic (with the one empty-batch corner characterised), clear resets, value in range when locked - generic over the number type under min/max laws proved for an exact instance and for binary64. Exhaustive correspondence over value sequences x cuts x 12 settings x failures x clear, in all value kinds (ndarray, 0-d, numpy.float64, float).",
+        note="Coq kernel + vm_compute; binary64 order laws via the standard library's FloatAxioms; hand model tied by correspondence.",
+        technique="Rocq proof (state machine invariants, split invariance) + exhaustive correspondence on histories",
+        ref="DESIGN.md §3 C12"),
+    "C14": dict(
+        text="Model of the FuzzyLite Language printer and importer over an FLL-level syntax tree with abstract numbers (assumption A-fmt: printing/parsing round-trips at d decimals, instantiated concretely); theorems: import(export e) = normalize e, export(normalize e) = export e under the stability hypothesis (its necessity kernel-checked), export/import/export fixed point, any accepted text normalises in one cycle, representable engines are unchanged; configure arities taken from the table regenerated from term.py. Correspondence: model export = implementation text line by line, model import = implementation's re-import (or the same error class), on engines over every registered class and on accepted/rejected variants; direct oracle on text fixed point, structure and bit-equal outputs.",
+        note="Coq kernel + vm_compute; closed under the global context; A-fmt (Python's %.df / float() round-trip) is a Section hypothesis instantiated by a token instance; Rule.load/Function.load not modelled inside import; known findings fll:rule-enabled-lost, fll:height-rounds-into-tolerance, fll:function-variables-lost reported as KNOWN-FINDING.",
+        technique="Rocq proof (printer/parser round trip over an abstract number interface) + exact text correspondence",
+        ref="DESIGN.md §3 C14"),
+    "C17": dict(
+        text="Model of the formula tokeniser, shunting-yard (shared, over the table regenerated from factory.py), postfix-to-tree builder, Node.evaluate and Function.membership's variable resolution; theorems: the generated table equals the documented one (any edit of precedence/associativity/arity/method breaks it), postfix/tree bijection, parse completeness for every printing with minimal or redundant parentheses over the whole table, evaluation = mathematical denotation over R incl. relational indicators and min/max, precedence/associativity corollaries, ill-formed token lists rejected with a syntax error. Exact correspondence of postfix, tree and values (scalar and arrays, transcendental results recorded) on generated formulas and ill-formed variants.",
+        note="Coq kernel + vm_compute; stdlib Reals axioms for eval_denotes; transcendental/rounding functions are oracle lookups recorded from the implementation; the tokeniser with arbitrary spacing is covered by correspondence only; known finding parse:compensating-arity-accepted reported as KNOWN-FINDING.",
+        technique="Rocq proof (parser completeness, evaluator denotation, table identity) + exact correspondence",
+        ref="DESIGN.md §3 C17"),
 }
 PENDING_REASON = "check under construction in this round (planned in DESIGN.md §3); not claimed until its theorems and correspondence run"
 
